@@ -596,6 +596,7 @@ let conc_main file =
          let cmds = List.map (fun c -> match String.split_on_char ':' c with
                                        | ["PUSH"; k] -> Conc.Push (nat_of_int (int_of_string k))
                                        | ["POP"; k] -> Conc.Pop (nat_of_int (int_of_string k))
+                                       | ["PUSHX"; k] -> Conc.PushX (nat_of_int (int_of_string k))
                                        | ["LEN"; k] -> Conc.Len (nat_of_int (int_of_string k))
                                        | ["DEL"; k] -> Conc.Del (nat_of_int (int_of_string k))
                                        | ["MOVE"; a; b] -> Conc.Move (nat_of_int (int_of_string a), nat_of_int (int_of_string b))
